@@ -6,18 +6,38 @@ MCDLt(a, b) == a < b
 Env(n, d) == IF n \in DOMAIN IOEnv THEN IOEnv[n] ELSE d
 MCN == atoi(Env("BPN", "2"))
 MCLayer == Env("BPLAYER", "private")
+NearK == atoi(Env("BPNEAR", "2"))
 \* leaf statements near a base real statement (at most 2 fields differ), plus dummies
 LeafFull == [asset : {0, 1}, out1 : {0, 1, 3}, out2 : {0, 3}, fee : {0, 1}, null : {1, 2}, exit1 : {0, 1}, exit2 : {0, 1}, block : {0, 1, 2}, number : {7}]
 LeafBase == [asset |-> 0, out1 |-> 3, out2 |-> 0, fee |-> 0, null |-> 1, exit1 |-> 1, exit2 |-> 0, block |-> 1, number |-> 7]
 LF == {"asset", "out1", "out2", "fee", "null", "exit1", "exit2", "block"}
-LeafNear == {c \in LeafFull : Cardinality({f \in LF : c[f] # LeafBase[f]}) <= 2}
+LeafNear == {c \in LeafFull : Cardinality({f \in LF : c[f] # LeafBase[f]}) <= NearK}
 LeafTemplate == [asset |-> 0, out1 |-> 0, out2 |-> 0, fee |-> 1, null |-> 0, exit1 |-> 0, exit2 |-> 0, block |-> 0, number |-> 0]
 \* inner (private-batch) statements: only the header matters to the public preflight and circuit
-InnerDomS == [asset : {0, 1}, fee : {0, 1}, block : {0, 1, 2}, number : {7}, slots : {<<<<3, 1>>, <<0, 0>>>>, <<<<0, 0>>, <<0, 0>>>>}, nulls : {<<1>>, <<2>>}]
+InnerDomS == [asset : {0, 1}, fee : {0, 1}, block : {0, 1, 2}, number : {7},
+              slots : IF NearK >= 2 THEN {<<<<3, 1>>, <<0, 0>>>>, <<<<0, 0>>, <<0, 0>>>>} ELSE {<<<<3, 1>>, <<0, 0>>>>},
+              nulls : IF NearK >= 2 THEN {<<1>>, <<2>>} ELSE {<<1>>}]
 InnerTemplate == [asset |-> 0, fee |-> 1, block |-> 0, number |-> 0, slots |-> <<<<0, 0>>, <<0, 0>>>>, nulls |-> <<9>>]
 MCStmtDom == IF MCLayer = "private" THEN LeafNear ELSE InnerDomS
 MCTemplate == IF MCLayer = "private" THEN LeafTemplate ELSE InnerTemplate
+\* simulation: vector length and proofs drawn at random (mostly sound proofs, mostly near the base statement)
+Pk(seq) == seq[RandomElement(1 .. Len(seq))]
+RandProof(z) == [st |-> IF MCLayer = "private" THEN RandomElement(LeafNear) ELSE RandomElement(InnerDomS),
+                 valid |-> Pk(<<TRUE, TRUE, TRUE, TRUE, TRUE, TRUE, TRUE, FALSE>>), lenok |-> Pk(<<TRUE, TRUE, TRUE, TRUE, TRUE, TRUE, TRUE, TRUE, TRUE, FALSE>>)]
+SimInit == sup = <<>> /\ stage = "pick" /\ idx = 1 /\ verdict = <<"none">> /\ slots = <<>>
+Pick == /\ stage = "pick"
+        /\ LET k == Pk(<<0, 1, 1, 1, 2, 2, 2, 2, 2, 3>>) IN sup' = [i \in 1 .. (IF k > N + 1 THEN N + 1 ELSE k) |-> RandProof(i)]
+        /\ stage' = "empty" /\ UNCHANGED <<idx, verdict, slots>>
+SimSpec == SimInit /\ [][Pick \/ Next]_vars
+
 Emit == Ended =>
   PrintT(<<"REPLAY", ToJson([layer |-> Layer, n |-> N, sup |-> sup, verdict |-> verdict[1], reason |-> verdict[2],
-                             provable |-> IF K \in 1 .. N THEN (IF CircuitAccepts(Padded) THEN 1 ELSE 0) ELSE 2])>>)
+                             provable |-> IF K \in 1 .. N THEN (IF CircuitAccepts(Padded) THEN 1 ELSE 0) ELSE 2,
+                             k |-> K,
+                             \* the largest grouped exit sum of the supplied statements (private layer): 4 = exactly the range bound
+                             maxsum |-> IF Layer = "private" /\ K >= 1
+                                          THEN LET m == Masked(Stmts)
+                                                   sums == {ExitSlot(m, j)[1] : j \in 1 .. 2 * K}
+                                               IN CHOOSE x \in sums : \A y \in sums : y <= x
+                                          ELSE 0])>>)
 =============================================================================
